@@ -22,7 +22,7 @@ class Variant:
     kind: str            # unit | tuple | struct
     fields: list
     attrs: list = field(default_factory=list)
-    discr: int = None    # value MIR's `discriminant()` yields (explicit `= N` or previous + 1); None until the enum is complete
+    discr: object = None    # value MIR's `discriminant()` yields (explicit `= N` or previous + 1); None until the enum is complete
 
 
 @dataclass
@@ -226,12 +226,13 @@ def parse_source(src, crate, module, features, path=""):
                         td.variants.append(Variant(vn, "struct", _parse_fields_named(tail[1:ee], features), vattrs))
                     else:
                         td.variants.append(Variant(vn, "unit", [], vattrs))
-                        md = re.match(r"^=\s*(-?\d+)\w*\s*$", tail)
-                        if md: td.variants[-1].discr = int(md.group(1))
+                        md = re.match(r"^=\s*(-?[\d_]+)(?:[ui]\w+)?\s*$", tail)
+                        if md: td.variants[-1].discr = int(md.group(1).replace("_", ""))
+                        elif tail.startswith("="): td.variants[-1].discr = tail[1:].strip()      # constant expression: resolved from MIR
                 nxt = 0
                 for v_ in td.variants:
-                    if v_.discr is None: v_.discr = nxt
-                    nxt = v_.discr + 1
+                    if v_.discr is None and nxt is not None: v_.discr = nxt
+                    nxt = v_.discr + 1 if isinstance(v_.discr, int) else None
         else:
             continue
         defs.append(td)
